@@ -62,6 +62,19 @@ void oracle_solicited(const pev *e) {
         char nm[160]; pev_name(e, nm, sizeof nm);
         char sig[96]; snprintf(sig, sizeof sig, "unsolicited:op=0x%02x:tos=%s", e->opcode, disc_tos(e->tos) ? "disc" : "foreign");
         vf_violation(sig, "%s made the responder transmit %d frame(s); at most %d allowed", nm, n, allowed);
+        return;
+    }
+    /* a request solicits its own kind of answer only: Discover -> Hello, Query -> QueryResp, QueryLargeTlv -> QueryLargeTlvResp,
+     * Emit -> Probe / Train / ACK */
+    for (int k = 0; k < n; k++) {
+        const vf_trec *t = tr_send(k); if (t->len < 18) continue;
+        uint8_t op = tr_bytes(t)[17];
+        int ok = e->opcode == 0x00 ? op == 0x01 : e->opcode == 0x06 ? op == 0x07 : e->opcode == 0x0B ? op == 0x0C : (op == 0x03 || op == 0x04 || op == 0x05);
+        if (!ok) {
+            char nm[160]; pev_name(e, nm, sizeof nm);
+            char sig[96]; snprintf(sig, sizeof sig, "unsolicited:answer-kind:op=0x%02x", e->opcode);
+            vf_violation(sig, "%s was answered with a frame of opcode 0x%02x, which this request does not solicit", nm, op);
+        }
     }
 }
 
